@@ -35,6 +35,8 @@ pub struct Step {
     pub dt_ns: i64,
     pub bools: Vec<bool>,
     pub ints: Vec<i32>,
+    /// 0 = none, 1 = warm restart before the cycle, 2 = cold restart before the cycle
+    pub restart: u8,
 }
 
 #[derive(Clone, Debug)]
@@ -46,6 +48,8 @@ pub struct CaseInput {
     pub int_inputs: Vec<String>,
     /// direct input addresses (BOOL) written before every cycle with the same values as bool_inputs
     pub direct_inputs: Vec<String>,
+    /// direct output addresses (BOOL) read back after every cycle
+    pub direct_outputs: Vec<String>,
     pub trace: Vec<Step>,
 }
 
@@ -55,17 +59,19 @@ impl CaseInput {
         let mut v = Vec::new();
         v.push(format!("opts {}", if self.with_paths { 1 } else { 0 }));
         v.push(format!(
-            "inputs {} | {} | {}",
+            "inputs {} | {} | {} | {}",
             join(self.bool_inputs.iter(), " "),
             join(self.int_inputs.iter(), " "),
-            join(self.direct_inputs.iter(), " ")
+            join(self.direct_inputs.iter(), " "),
+            join(self.direct_outputs.iter(), " ")
         ));
         for (p, t) in &self.files {
             v.push(format!("src {} {}", hex(p.as_bytes()), hex(t.as_bytes())));
         }
         for s in &self.trace {
             v.push(format!(
-                "trace {} {} {}",
+                "trace {} {} {} {}",
+                s.restart,
                 s.dt_ns,
                 if s.bools.is_empty() {
                     "-".to_string()
@@ -85,6 +91,7 @@ impl CaseInput {
             bool_inputs: Vec::new(),
             int_inputs: Vec::new(),
             direct_inputs: Vec::new(),
+            direct_outputs: Vec::new(),
             trace: Vec::new(),
         };
         for line in text.lines() {
@@ -94,13 +101,14 @@ impl CaseInput {
                 Some("inputs") => {
                     let rest = line["inputs".len()..].to_string();
                     let parts: Vec<&str> = rest.split('|').collect();
-                    if parts.len() != 3 {
+                    if parts.len() != 4 {
                         return Err("inputs line".into());
                     }
                     let names = |s: &str| s.split_whitespace().map(|x| x.to_string()).collect::<Vec<_>>();
                     c.bool_inputs = names(parts[0]);
                     c.int_inputs = names(parts[1]);
                     c.direct_inputs = names(parts[2]);
+                    c.direct_outputs = names(parts[3]);
                 }
                 Some("src") => {
                     let p = String::from_utf8(unhex(ws[1])).map_err(|e| e.to_string())?;
@@ -108,14 +116,18 @@ impl CaseInput {
                     c.files.push((p, t));
                 }
                 Some("trace") => {
-                    let dt: i64 = ws[1].parse().map_err(|_| "dt")?;
-                    let bools = if ws[2] == "-" { Vec::new() } else { ws[2].chars().map(|ch| ch == '1').collect() };
-                    let ints = if ws[3] == "-" {
+                    if ws.len() != 5 {
+                        return Err("trace line".into());
+                    }
+                    let restart: u8 = ws[1].parse().map_err(|_| "restart")?;
+                    let dt: i64 = ws[2].parse().map_err(|_| "dt")?;
+                    let bools = if ws[3] == "-" { Vec::new() } else { ws[3].chars().map(|ch| ch == '1').collect() };
+                    let ints = if ws[4] == "-" {
                         Vec::new()
                     } else {
-                        ws[3].split(',').map(|x| x.parse::<i32>().map_err(|_| "int")).collect::<Result<_, _>>()?
+                        ws[4].split(',').map(|x| x.parse::<i32>().map_err(|_| "int")).collect::<Result<_, _>>()?
                     };
-                    c.trace.push(Step { dt_ns: dt, bools, ints });
+                    c.trace.push(Step { dt_ns: dt, bools, ints, restart });
                 }
                 _ => {}
             }
@@ -145,6 +157,8 @@ impl CaseInput {
 
 #[derive(Clone, Debug, Default, PartialEq, Eq)]
 pub struct Observation {
+    /// self-test: iteration order of a 32-key std HashMap in the observing process/thread
+    pub hash_order: String,
     /// `Ok(container bytes)` or `Err(message)`
     pub compile: Option<Result<Vec<u8>, String>>,
     /// `Err(message)` if the runtime could not be built
@@ -153,8 +167,15 @@ pub struct Observation {
     pub cycles: Vec<String>,
 }
 
-fn dump_cycle(rt: &Runtime, result: &Result<(), trust_runtime::error::RuntimeError>, events: &[String]) -> String {
+fn dump_cycle(
+    rt: &Runtime,
+    case: &CaseInput,
+    pre: &str,
+    result: &Result<(), trust_runtime::error::RuntimeError>,
+    events: &[String],
+) -> String {
     let mut s = String::new();
+    s.push_str(pre);
     let _ = writeln!(
         s,
         "time={} cycle={} faulted={} last_fault={:?}",
@@ -192,6 +213,11 @@ fn dump_cycle(rt: &Runtime, result: &Result<(), trust_runtime::error::RuntimeErr
         hex(rt.io().outputs()),
         hex(rt.io().memory())
     );
+    for addr in case.direct_inputs.iter().chain(case.direct_outputs.iter()) {
+        if let Ok(a) = trust_runtime::io::IoAddress::parse(addr) {
+            let _ = writeln!(s, "io {addr}={:?}", rt.io().read(&a).map_err(|e| e.to_string()));
+        }
+    }
     for t in rt.tasks() {
         let _ = writeln!(s, "ovr {}={:?}", t.name, rt.task_overrun_count(t.name.as_str()));
     }
@@ -200,8 +226,31 @@ fn dump_cycle(rt: &Runtime, result: &Result<(), trust_runtime::error::RuntimeErr
 
 /// Compile and run one case in this process.  `pace_us > 0` sleeps between cycles so that the wall
 /// clock of the process is unrelated to the simulated clock.
+fn hash_order_probe() -> String {
+    let mut m = std::collections::HashMap::new();
+    for i in 0..32u32 {
+        m.insert(i, ());
+    }
+    join(m.keys(), ".")
+}
+
+/// `observe_inner` under `catch_unwind`: a panic of the real code is an observation ("panic"), the
+/// same in every process if it is deterministic.
 pub fn observe(case: &CaseInput, pace_us: u64) -> Observation {
+    match std::panic::catch_unwind(std::panic::AssertUnwindSafe(|| observe_inner(case, pace_us))) {
+        Ok(o) => o,
+        Err(_) => Observation {
+            hash_order: hash_order_probe(),
+            compile: None,
+            build_error: Some("panic".into()),
+            cycles: Vec::new(),
+        },
+    }
+}
+
+fn observe_inner(case: &CaseInput, pace_us: u64) -> Observation {
     let mut obs = Observation::default();
+    obs.hash_order = hash_order_probe();
     let session = case.session();
     obs.compile = Some(session.build_bytecode_bytes().map_err(|e| e.to_string()));
     let mut rt = match session.build_runtime() {
@@ -214,6 +263,12 @@ pub fn observe(case: &CaseInput, pace_us: u64) -> Observation {
     let control = rt.enable_debug();
     let _ = control.drain_runtime_events();
     for step in &case.trace {
+        let mut pre = String::new();
+        if step.restart != 0 {
+            let mode = if step.restart == 1 { trust_runtime::RestartMode::Warm } else { trust_runtime::RestartMode::Cold };
+            let r = rt.restart(mode);
+            let _ = writeln!(pre, "restart {:?} -> {:?}", step.restart, r.map_err(|e| e.to_string()));
+        }
         rt.advance_time(Duration::from_nanos(step.dt_ns));
         for (i, name) in case.bool_inputs.iter().enumerate() {
             let v = step.bools.get(i).copied().unwrap_or(false);
@@ -231,7 +286,7 @@ pub fn observe(case: &CaseInput, pace_us: u64) -> Observation {
         }
         let result = rt.execute_cycle();
         let events: Vec<String> = control.drain_runtime_events().iter().map(|e| format!("{e:?}")).collect();
-        obs.cycles.push(dump_cycle(&rt, &result, &events));
+        obs.cycles.push(dump_cycle(&rt, case, &pre, &result, &events));
         if pace_us > 0 {
             std::thread::sleep(std::time::Duration::from_micros(pace_us));
         }
@@ -332,6 +387,7 @@ fn child_main(args: &Args, k: usize) -> i32 {
     if let Some(e) = &obs.build_error {
         let _ = writeln!(w, "B {}", hex(e.as_bytes()));
     }
+    let _ = writeln!(w, "H {}", obs.hash_order);
     for (i, d) in obs.cycles.iter().enumerate() {
         let _ = writeln!(w, "Y {i} {}", hex(d.as_bytes()));
     }
@@ -353,6 +409,7 @@ fn parse_child_output(text: &str) -> Result<Observation, String> {
                 }
             }
             Some("B") => obs.build_error = Some(String::from_utf8_lossy(&unhex(ws[1])).to_string()),
+            Some("H") => obs.hash_order = ws.get(1).map(|s| s.to_string()).unwrap_or_default(),
             Some("Y") => obs.cycles.push(String::from_utf8_lossy(&unhex(ws[2])).to_string()),
             Some("DONE") => done = true,
             _ => {}
@@ -530,9 +587,14 @@ pub fn run_case(n: u64, case: &CaseInput, children: usize, tmp_dir: &std::path::
     let exe2 = exe.clone();
     let file2 = file_s.clone();
     let handle = std::thread::spawn(move || spawn_children(&exe2, &file2, children));
+    // the same process, a second time ("in the same or in different processes"), on another thread
+    let case2 = case.clone();
+    let handle2 = std::thread::Builder::new()
+        .stack_size(64 * 1024 * 1024)
+        .spawn(move || observe(&case2, 0))
+        .map_err(|e| e.to_string())?;
     let parent = observe(case, 0);
-    // the same process, a second time ("in the same or in different processes")
-    let parent2 = observe(case, 0);
+    let parent2 = handle2.join().map_err(|_| "second in-process observation panicked".to_string())?;
     let kids = handle.join().map_err(|_| "child thread panicked".to_string())?;
     let _ = std::fs::remove_file(&file);
 
@@ -547,9 +609,21 @@ pub fn run_case(n: u64, case: &CaseInput, children: usize, tmp_dir: &std::path::
             Err(e) => {
                 out.line(format!("# child-{} failed: {}", i + 1, e.replace('\n', " ")));
                 out.count("child_failed");
-                all.push((format!("child-{}", i + 1), Observation { compile: None, build_error: Some(e), cycles: Vec::new() }));
+                all.push((
+                    format!("child-{}", i + 1),
+                    Observation { hash_order: String::new(), compile: None, build_error: Some(e), cycles: Vec::new() },
+                ));
             }
         }
+    }
+    // self-test of the experiment: the processes really iterate std hash maps in different orders
+    let mut orders: Vec<&str> = all.iter().map(|(_, o)| o.hash_order.as_str()).filter(|s| !s.is_empty()).collect();
+    orders.push(parent.hash_order.as_str());
+    orders.sort();
+    orders.dedup();
+    out.line(format!("# selftest: {} distinct std::HashMap iteration orders among {} observations", orders.len(), all.len() + 1));
+    if orders.len() >= 3 {
+        out.count("selftest_cases_with_3plus_hash_orders");
     }
     // model-vs-implementation ops on the parent's container
     let mut strings = 0;
@@ -629,6 +703,13 @@ pub fn run_case(n: u64, case: &CaseInput, children: usize, tmp_dir: &std::path::
         out.count("cases_with_fault");
         out.line("tag fault");
     }
+    if case.trace.iter().any(|s| s.restart != 0) {
+        out.count("cases_with_restart");
+    }
+    out.count(&format!("files_{}", case.files.len().min(3)));
+    if case.with_paths {
+        out.count("cases_with_paths");
+    }
     if strings >= 24 && pous >= 6 && all_ran >= 8 {
         out.line("tag nontrivial");
     }
@@ -649,7 +730,8 @@ pub fn run(args: &Args) -> i32 {
             bool_inputs: vec![],
             int_inputs: vec![],
             direct_inputs: vec![],
-            trace: (0..3).map(|_| Step { dt_ns: 10_000_000, bools: vec![], ints: vec![] }).collect(),
+            direct_outputs: vec![],
+            trace: (0..3).map(|_| Step { dt_ns: 10_000_000, bools: vec![], ints: vec![], restart: 0 }).collect(),
         };
         let obs = observe(&case, 0);
         match &obs.compile {
